@@ -126,16 +126,20 @@ PROPS = {
         "assumptions": ["plain / TLS / StartTLS transports deliver the same bind request to the handler (C13, C18); this check drives the handler in-process through the directory's own mux"],
     },
     "C20": {
-        "lean": ["GldapModel.Props.C20"],
-        "audit": "GldapModel/Audit/C20.lean",
+        "lean": ["GldapModel.Props.C20", "GldapModel.Props.StoreSession"],
+        "audit": ["GldapModel/Audit/C20.lean", "GldapModel/Audit/StoreSession.lean"],
         "inventory": ["td.Directory.handleAdd", "td.Directory.handleModify", "td.Directory.handleDelete", "td.Directory.handleSearchUsers",
                       "td.Directory.handleSearchGroups", "td.Directory.handleSearchGeneric", "td.Directory.findMembers", "td.find", "td.match",
-                      "td.Directory.SetUsers", "td.Directory.SetGroups", "NewEntry", "NewEntryAttribute", "EntryAttribute.AddValue", "Entry.GetAttributeValues"],
+                      "td.Directory.SetUsers", "td.Directory.SetGroups", "NewEntry", "NewEntryAttribute", "EntryAttribute.AddValue", "Entry.GetAttributeValues",
+                      # the directory on a connection (Directory.dirSession): the registrations, the remaining handlers, the response constructors
+                      "td.Start", "td.Directory.handleNotFound", "td.Directory.handleBind", "Request.NewResponse", "Request.NewSearchDoneResponse",
+                      "Request.NewSearchResponseEntry", "Request.NewModifyResponse", "SearchResponseEntry.AddAttribute", "Mux.serve", "searchRoute.match"],
         "streams": [
             {"stream": "tdstore", "n_quick": 3000, "n_thorough": 300000},
+            {"stream": "tddir", "n_quick": 3000, "n_thorough": 300000},
         ],
         "trusted": BER_TRUST + ["regexp `\\((.*?)\\)`, strings.ReplaceAll/Trim/TrimSpace/Contains re-implemented at byte level in the model; checked against the real functions by the tdstore stream (including a hostile DN class)"],
-        "assumptions": ["the mux routes searches as modelled in routeSearch (validated by the stream); several clients issue one operation at a time (the directory serialises on d.mu, C15)"],
+        "assumptions": ["several clients issue one operation at a time (the directory serialises on d.mu, C15); StartTLS and token-group searches are outside Directory.dirSession"],
     },
     "C05": {
         "lean": ["GldapModel.Props.C05"],
